@@ -59,6 +59,16 @@ class C11(vlib.Check):
                 # force overlap
                 b["idx"] = sorted(set(b["idx"]) | set(rng.sample(a["idx"], max(1, len(a["idx"]) // 2)))) if b["bits"] == bits else b["idx"]
             self.count("setop-sampled")
+            for f in (a, b):
+                if f["kind"] == "bit" and f["idx"] and rng.random() < 0.3:
+                    # the operand is built from an index list with repeats: merged ordered lists (non-decreasing), or unordered
+                    raw = list(f["idx"]) + [rng.choice(f["idx"]) for _ in range(rng.randint(1, 3))]
+                    if rng.random() < 0.6:
+                        raw.sort()
+                    else:
+                        rng.shuffle(raw)
+                    f["raw_idx"] = raw
+                    self.count("operand-built-from-repeated-indices")
             yield {"t": "setop", "o": rng.choice(list(SETOPS)), "form": rng.choice(["plain", "reflected", "inplace"]), "a": a, "b": b}
         for _ in range(n):
             bits = rng.choice([8, 32, 1024, 2 ** 32, 100])
@@ -111,6 +121,11 @@ class C11(vlib.Check):
                 w = [rng.choice(["1", "2", "3", "1/2", "1/4", "0", "5"]) for _ in range(k)]
                 if sum(Fraction(x) for x in w) == 0:
                     w[0] = "1"
+                if rng.random() < 0.25:
+                    # un-normalised weights of tiny magnitude (Boltzmann factors): only their ratios matter
+                    sc = Fraction(1, 2 ** rng.choice([30, 40, 100]))
+                    w = [str(Fraction(x) * sc) for x in w]
+                    self.count("tiny-weights")
                 # keep the normalised weights dyadic so doubles stay exact
                 tot = sum(Fraction(x) for x in w)
                 if tot.numerator & (tot.numerator - 1):
@@ -175,14 +190,19 @@ class C11(vlib.Check):
         t = case["t"]
         r = answers[0]
         if t == "setop":
-            return {"res": r, "a_after": case["a"] if case["form"] != "inplace" or "err" in r else None, "b_after": case["b"]}
+            return {"res": r, "a_after": self._content(case["a"]) if case["form"] != "inplace" or "err" in r else None, "b_after": self._content(case["b"])}
         if t == "addsub":
-            return {"res": r, "a_after": case["a"], "b_after": case["b"]}
+            return {"res": r, "a_after": self._content(case["a"]), "b_after": self._content(case["b"])}
         if t == "scalar":
-            return {"res": r, "a_after": case["a"]}
+            return {"res": r, "a_after": self._content(case["a"])}
         return {"res": r, "after": case["fps"]}
 
     # ------------------------------------------------------------------ property
+    @staticmethod
+    def _content(spec):
+        """the content of an operand spec (how it was built - `raw_idx` - is not content)"""
+        return {k: v for k, v in spec.items() if k != "raw_idx"}
+
     def prop(self, case):
         t = case["t"]
         got = self.impl(case)
@@ -199,7 +219,7 @@ class C11(vlib.Check):
                 return {"key": "setop-wrong:%s:%s" % (case["o"], case["form"]),
                         "what": "%s (%s form) is not the set %s of the operands' bits" % (case["o"], case["form"], case["o"]),
                         "want": want, "got": res["ok"]}
-            if got["b_after"] != b or (got["a_after"] is not None and got["a_after"] != a):
+            if got["b_after"] != self._content(b) or (got["a_after"] is not None and got["a_after"] != self._content(a)):
                 return {"key": "setop-mutates-operand", "what": "operand changed"}
             return None
         if t == "addsub":
@@ -217,7 +237,7 @@ class C11(vlib.Check):
             if nonzero(gotc) != nonzero(want) or res["ok"]["bits"] != a["bits"]:
                 return {"key": "addsub-wrong:%d" % case["sign"], "what": "counts are not added/subtracted position by position",
                         "got": res["ok"]}
-            if got["a_after"] != a or got["b_after"] != b:
+            if got["a_after"] != self._content(a) or got["b_after"] != self._content(b):
                 return {"key": "addsub-mutates-operand", "what": "operand changed"}
             return None
         if t == "scalar":
@@ -245,7 +265,7 @@ class C11(vlib.Check):
             if sorted(gotc) != o["idx"]:
                 return {"key": "scalar-indices-inconsistent:%s" % case["o"],
                         "what": "result of scalar %s has indices %s but counts at %s" % (case["o"], o["idx"][:8], sorted(gotc)[:8])}
-            if got["a_after"] != a:
+            if got["a_after"] != self._content(a):
                 return {"key": "scalar-mutates-operand", "what": "operand changed"}
             return None
         if t == "batch":
